@@ -654,7 +654,7 @@ func commandSweep() {
 func main() {
 	r = explore.Start("C15")
 	if r.Replay != "" {
-		r.Fault("replay: see detail; not implemented")
+		r.ReplayBySearch()
 	}
 	if idx, n, arg, ok := r.Worker(); ok {
 		r.Watchdog(60 * time.Second)
